@@ -35,7 +35,7 @@ func (c19) Exhaustive(env run.Env) (bool, string) {
 func (c19) Phases(env run.Env) []run.Phase {
 	nh := 1500
 	if env.Thorough {
-		nh = 40000
+		nh = 1500000
 	}
 	out := []run.Phase{{Name: "zero-and-fresh-values", N: 5}, {Name: "setter-histories", N: nh}, {Name: "rendered-bytes", N: 256}}
 	for _, p := range hostilePhases(env) {
